@@ -21,8 +21,15 @@ macro_rules! props {
 props!(("C01", c01), ("C02", c02), ("C03", c03), ("C04", c04), ("C05", c05), ("C06", c06), ("C07", c07), ("C08", c08), ("C09", c09), ("C10", c10), ("C11", c11), ("C12", c12), ("C13", c13), ("C14", c14), ("C15", c15), ("C16", c16), ("C17", c17), ("C18", c18), ("C19", c19), ("C20", c20));
 
 pub fn run(id: &str, tier: Tier, seed: u64, r: &mut Report) -> bool {
-    let Some(ms) = models(id, tier, seed) else {
-        return false;
+    // building the models already calls the library on honest inputs; a panic there is reported, not a crash
+    let ms = match crate::engine::guard(|| models(id, tier, seed)) {
+        Ok(Some(ms)) => ms,
+        Ok(None) => return false,
+        Err(p) => {
+            describe(id, tier, r);
+            r.machinery(format!("building the honest values for the models of {} panicked: {} (the library failed on an honest input outside this property's own cases, or the harness is wrong)", id, p));
+            return true;
+        }
     };
     describe(id, tier, r);
     for m in ms {
